@@ -139,7 +139,23 @@ pub fn put_case(r: &mut Rng, n: usize, kind: u8, tokenless: Vec<bool>, script: V
     let sk = SigningKey::from_bytes(&[7u8; 32]);
     let request = make_request(r, kind, 5, None, b"value", &sk);
     let (tx, rx) = flume::unbounded();
-    s.node.actor.verif_put(request, tx, None);
+    // in a third of the cases the caller names extra nodes it never asked for a token: freshly built nodes
+    // (no token) at the addresses of one or two further peers, which must not be written to
+    let mut tokenless = tokenless;
+    let extra: Option<Box<[dht::Node]>> = if r.chance(1, 3) {
+        let k = 1 + r.below(2) as usize;
+        let mut v = Vec::new();
+        for j in 0..k {
+            let p = Peer::new(crate::scn::peer_id(90 + j, r));
+            v.push(dht::Node::new(Id::from(p.id), p.addr));
+            s.peers.push(p);
+            tokenless.push(true);
+        }
+        Some(v.into())
+    } else {
+        None
+    };
+    s.node.actor.verif_put(request, tx, extra);
     let run = drive_lookup(&mut s, &tokenless);
     let mut result: Option<(Result<Id, PutError>, usize)> = rx.try_recv().ok().map(|x| (x, 0));
     let mut evs: Vec<String> = Vec::new();
